@@ -198,6 +198,12 @@ class SimSelector:
         if not ready and (timeout is None or timeout > 0):
             w.block(lambda: bool(self._ready()), timeout, 'select')
             ready = self._ready()
+        elif ready and (w.actors or len(w.threads) > 1):
+            # peers run concurrently with the caller: a select() that returns at
+            # once is still a scheduling point, otherwise a level-triggered
+            # descriptor would let the caller starve everybody else
+            w.block(None, None, 'select-ready')
+            ready = self._ready()
         if len(ready) > 1 and w.shuffle_ready:
             w.aux_rng.shuffle(ready)
         w.ev(w.ename(), 'select', ','.join('%d:%d' % (k.fd, m) for k, m in ready))
